@@ -26,9 +26,92 @@ pub const FORMATS: [&str; 6] = ["debug", "json-pretty", "json", "xml", "bson-hex
 
 #[derive(Debug, Clone, Serialize, Deserialize)]
 pub enum Case {
-    Query { game: String, format: u8, specific: bool, st: FamState },
+    Query {
+        game: String,
+        format: u8,
+        specific: bool,
+        st: FamState,
+        /// further valid options of the invocation
+        #[serde(default)]
+        opts: Opts,
+    },
     /// invalid invocation: arguments after the program name
     Invalid { args: Vec<String>, what: String },
+}
+
+/// The optional flags of `query` with valid values; the same settings are given to the library call that provides the expected document.
+#[derive(Debug, Clone, Default, Serialize, Deserialize)]
+pub struct Opts {
+    pub write: Option<u8>,
+    pub connect: Option<u8>,
+    pub retries: Option<u8>,
+    pub hostname: Option<String>,
+    pub protocol_version: Option<u32>,
+    pub gather_players: Option<u8>,
+    pub gather_rules: Option<u8>,
+    pub check_app_id: Option<bool>,
+    /// `--flag=value` instead of `--flag value`
+    pub eq_style: bool,
+}
+
+impl Opts {
+    fn args(&self) -> Vec<String> {
+        let tog = |t: u8| ["skip", "try", "enforce"][t as usize % 3].to_string();
+        let mut pairs: Vec<(&str, String)> = Vec::new();
+        if let Some(v) = self.write { pairs.push(("--write-timeout", v.to_string())); }
+        if let Some(v) = self.connect { pairs.push(("--connect-timeout", v.to_string())); }
+        if let Some(v) = self.retries { pairs.push(("--retries", v.to_string())); }
+        if let Some(v) = &self.hostname { pairs.push(("--hostname", v.clone())); }
+        if let Some(v) = self.protocol_version { pairs.push(("--protocol-version", v.to_string())); }
+        if let Some(v) = self.gather_players { pairs.push(("--gather-players", tog(v))); }
+        if let Some(v) = self.gather_rules { pairs.push(("--gather-rules", tog(v))); }
+        if let Some(v) = self.check_app_id { pairs.push(("--check-app-id", v.to_string())); }
+        let mut out = Vec::new();
+        for (f, v) in pairs {
+            if self.eq_style {
+                out.push(format!("{f}={v}"));
+            } else {
+                out.push(f.to_string());
+                out.push(v);
+            }
+        }
+        out
+    }
+
+    fn extra(&self) -> Option<gamedig::protocols::types::ExtraRequestSettings> {
+        if self.hostname.is_none() && self.protocol_version.is_none() && self.gather_players.is_none() && self.gather_rules.is_none() && self.check_app_id.is_none() {
+            return None;
+        }
+        let mut e = gamedig::protocols::types::ExtraRequestSettings::default();
+        e.hostname = self.hostname.clone();
+        e.protocol_version = self.protocol_version.map(|v| v as i32);
+        e.gather_players = self.gather_players.map(|t| crate::entries::toggle(t % 3));
+        e.gather_rules = self.gather_rules.map(|t| crate::entries::toggle(t % 3));
+        e.check_app_id = self.check_app_id;
+        Some(e)
+    }
+}
+
+fn opts() -> impl Strategy<Value = Opts> {
+    let maybe = |w: u32| prop::bool::weighted(1.0 / w as f64);
+    (
+        (maybe(5), 1u8 .. 10, maybe(5), 1u8 .. 10, maybe(5), 0u8 .. 3),
+        (maybe(4), "[a-z0-9][a-z0-9.-]{0,30}", maybe(4), prop_oneof![0u32 .. 1000, 0u32 ..= i32::MAX as u32]),
+        (maybe(4), 0u8 .. 3, maybe(4), 0u8 .. 3, maybe(5), any::<bool>(), any::<bool>()),
+    )
+        .prop_map(|((hw, w, hc, c, hr, r), (hh, h, hp, p), (hgp, gp, hgr, gr, hca, ca, eq_style))| {
+            Opts {
+                write: hw.then_some(w),
+                connect: hc.then_some(c),
+                retries: hr.then_some(r),
+                hostname: hh.then_some(h),
+                protocol_version: hp.then_some(p),
+                gather_players: hgp.then_some(gp),
+                gather_rules: hgr.then_some(gr),
+                check_app_id: hca.then_some(ca),
+                eq_style,
+            }
+        })
 }
 
 fn cli_path() -> std::path::PathBuf {
@@ -248,7 +331,8 @@ impl Prop for C19 {
     fn rule(&self) -> String {
         "the real gamedig_cli binary (built from /repo for every run) is run against real loopback UDP/TCP servers that serve random states of the reference models (strings \
          with markup characters, quotes, control characters, non-BMP characters; rule keys with spaces / digits first / empty; numbers at type limits incl. u64 above i64::MAX) \
-         for 16 games covering every protocol family x 2 output modes x 6 formats. Oracle: exit status 0 and exactly one document on stdout that a strict parser in the harness \
+         for 16 games covering every protocol family x 2 output modes x 6 formats x a random subset of the other valid options (write / connect timeouts, retries, host name, \
+         protocol version, gather toggles, app id check; `--flag value` or `--flag=value`), which the in-process library call receives too. Oracle: exit status 0 and exactly one document on stdout that a strict parser in the harness \
          accepts (serde_json; an XML 1.1 well-formedness checker incl. the Name production and restricted characters; the bson crate after hex / base64 decoding; debug: non-empty) \
          and that carries the values the library returns for the same server queried in-process (JSON / BSON: structural equality, floats within 1e-6; XML: the tree the CLI's \
          documented JSON->XML mapping gives, children compared as multisets). Invalid invocations (generated junk / out-of-range / extreme values for every value-taking flag in front of a refused connection or an unknown game; spellings of zero for the three timeout flags with UDP and TCP games; unknown game, unresolvable host, closed port, zero / non-numeric / negative \
@@ -281,11 +365,11 @@ impl Prop for C19 {
         let query = (prop::sample::select(weighted), 0u8 .. 6, any::<bool>())
             .prop_flat_map(|(game, format, specific)| {
                 let fam = family_of_game(game).unwrap_or(Family::Savage2);
-                (Just(game), Just(format), Just(specific), fam_state(fam))
+                (Just(game), Just(format), Just(specific), fam_state(fam), opts())
             })
-            .prop_map(|(game, format, specific, mut st)| {
+            .prop_map(|(game, format, specific, mut st, opts)| {
                 sanitise(&mut st);
-                Case::Query { game: game.to_string(), format, specific, st }
+                Case::Query { game: game.to_string(), format, specific, st, opts }
             });
         // a flag value that is junk, out of range or extreme, for a game whose server refuses the connection: whatever the value is taken for,
         // the invocation cannot succeed
@@ -388,8 +472,16 @@ impl Prop for C19 {
                     o.fail(format!("C19|invalid invocation|{what}|no error message"), detail);
                 }
             }
-            Case::Query { game, format, specific, st } => {
+            Case::Query { game, format, specific, st, opts } => {
                 let fmt = FORMATS[*format as usize % 6];
+                let opt_args = opts.args();
+                o.label(if opt_args.is_empty() { "options=none" } else { "options=some" });
+                for a in &opt_args {
+                    if let Some(flag) = a.strip_prefix("--") {
+                        o.label(format!("option={}", flag.split('=').next().unwrap_or("")));
+                    }
+                }
+                let extra = opts.extra();
                 let fam = family_of_game(game).unwrap_or(Family::Savage2);
                 o.label(format!("format={fmt}"));
                 o.label(if *specific { "mode=protocol-specific" } else { "mode=generic" });
@@ -418,7 +510,7 @@ impl Prop for C19 {
                     let secs = lib_secs;
                     let r = run_plain(|| {
                     let t = gamedig::protocols::types::TimeoutSettings::new(Some(Duration::from_secs(secs)), Some(Duration::from_secs(secs)), Some(Duration::from_secs(secs)), 0).ok();
-                    gamedig::query_with_timeout_and_extra_settings(g, &lo, Some(port), t, None).map(|r| {
+                    gamedig::query_with_timeout_and_extra_settings(g, &lo, Some(port), t, extra.clone()).map(|r| {
                         if *specific {
                             serde_json::to_value(r.as_original()).unwrap_or(Value::Null)
                         } else {
@@ -455,10 +547,14 @@ impl Prop for C19 {
                 crate::util::normalise_sets(&mut expected);
                 let etext = expected.to_string();
                 o.nontrivial = etext.chars().any(|c| matches!(c, '<' | '>' | '&' | '\'') || !c.is_ascii() ) || etext.contains("\\u00") || etext.contains("\\\"");
-                let args: Vec<String> = ["query", "-g", game, "-i", "127.0.0.1", "-p", &port.to_string(), "-f", fmt, "-o", if *specific { "protocol-specific" } else { "generic" }, "--read-timeout", "1"]
+                // the read timeout stays the last argument: it is the one replaced when a loopback timeout asks for more patience
+                let mut args: Vec<String> = ["query", "-g", game, "-i", "127.0.0.1", "-p", &port.to_string(), "-f", fmt, "-o", if *specific { "protocol-specific" } else { "generic" }]
                     .iter()
                     .map(|s| s.to_string())
                     .collect();
+                args.extend(opt_args.iter().cloned());
+                args.push("--read-timeout".into());
+                args.push("1".into());
                 let Some(mut r) = run_cli(&args) else {
                     o.fail("C19|setup|cannot start the CLI", json!({}));
                     return o;
